@@ -18,6 +18,7 @@ type Val struct {
 	GKind string // heap kind override for ghost lvalues
 	Tuple []Val
 	Win   *window // byte window lvalue (for modifies)
+	MapCells bool // modifies item: the three cells (domain, values, length) of a map object
 	Root  bool    // modifies item: every cell under the root object of Addr (element cells of a slice)
 }
 
